@@ -110,7 +110,8 @@ func NewWorld(spec *WorldSpec) *World {
 // PutHardLink makes p another name of the regular file at target (same node).
 func (w *World) PutHardLink(p, target string) {
 	p, target = filepath.Clean(p), filepath.Clean(target)
-	if n, ok := w.fs[target]; ok && !n.dir && n.link == "" {
+	if n, ok := w.fs[target]; ok && !n.dir && n.link == "" && p != target {
+		w.Del(p)
 		w.mkparents(p)
 		w.fs[p] = n
 	}
